@@ -4,7 +4,7 @@ from ..core import hx, lst, WILD
 from ..ref import P, L, to32, le
 
 REQUIRED = ['n=0', 'n=1', 'straus', 'pippenger', 'corrupt:none', 'corrupt:msg', 'corrupt:key', 'corrupt:R', 'corrupt:S',
-            'corrupt:S+l', 'corrupt:R-offcurve', 'shuffled', 'duplicated', 'len-mismatch', 'pos:first', 'pos:last', 'many']
+            'corrupt:S+l', 'corrupt:R-offcurve', 'shuffled', 'duplicated', 'len-mismatch', 'pos:first', 'pos:last', 'many', 'cancelling']
 
 
 def okerr(x):
@@ -90,6 +90,30 @@ def gen(ctx, sizes, reps):
                     rng.shuffle(b)
                     emit(ctx, b, ncl + ['corrupt:' + kind, 'shuffled'])
                     emit(ctx, b + [b[0]], ncl + ['corrupt:' + kind, 'duplicated'])
+            if n >= 2:
+                # corruptions that cancel in an unweighted sum: two entries exchange their S halves, or S_i += d, S_j -= d
+                i, j = rng.sample(range(n), 2)
+                b = list(base)
+                b[i] = Entry(base[i].key, base[i].msg, base[i].sig[:32] + base[j].sig[32:])
+                b[j] = Entry(base[j].key, base[j].msg, base[j].sig[:32] + base[i].sig[32:])
+                for k in (i, j):
+                    b[k].ok = ref.ed_verify_predicate(b[k].key, b[k].msg, b[k].sig)
+                emit(ctx, b, ncl + ['cancelling', 'many'])
+                d = rng.randrange(1, L)
+                b = list(base)
+                b[i] = Entry(base[i].key, base[i].msg, base[i].sig[:32] + to32((le(base[i].sig[32:]) + d) % L), ok=False)
+                b[j] = Entry(base[j].key, base[j].msg, base[j].sig[:32] + to32((le(base[j].sig[32:]) - d) % L), ok=False)
+                emit(ctx, b, ncl + ['cancelling', 'many'])
+                # the same entry twice with opposite errors in R: R+D and R-D
+                Dp = vals.Pt(rng.randrange(1, L), 0)
+                e0 = base[i]
+                r_aff = ref.ed_decompress(e0.sig[:32])
+                ra = ref.ed_compress(ref.aff_add(r_aff, Dp.affine()))
+                rb_ = ref.ed_compress(ref.aff_add(r_aff, ref.aff_neg(Dp.affine())))
+                b = list(base) + [Entry(e0.key, e0.msg, ra + e0.sig[32:]), Entry(e0.key, e0.msg, rb_ + e0.sig[32:])]
+                for k in (-1, -2):
+                    b[k].ok = ref.ed_verify_predicate(b[k].key, b[k].msg, b[k].sig)
+                emit(ctx, b, ncl + ['cancelling', 'many'])
             if n >= 3:
                 b = [corrupt(rng, e, rng.choice(['msg', 'key', 'R', 'S']), keys) if rng.random() < 0.5 else e for e in base]
                 emit(ctx, b, ncl + ['many'])
